@@ -913,6 +913,9 @@ pub fn result_cell_eq(exp: &Cell, got: &Cell, tol: Option<(f64, usize)>) -> bool
                 None => false,
             }
         }
+        // i64::MAX is the engine's in-band NULL marker for integers and outside the value domain: a computed
+        // result that equals it may read as NULL (the same convention as in the C06 oracle)
+        (Cell::Int(i64::MAX), Cell::Null) => true,
         _ => exp == got,
     }
 }
